@@ -1,6 +1,7 @@
 """Driver of the check decided on spec/Adapters.tla (property C20).
 
-  (1) TLC, exhaustive, on the bounded scenario family: invariants Faithful, ExactlyOnce, ActionOnce, action property Stable.
+  (1) TLC, exhaustive, on the bounded scenario family: invariants Faithful, ExactlyOnce, ActionOnce, FilteredIsSilent,
+      OnTargetLoop, action property Stable.
       A counterexample is replayed on the real adapters (so that it is a statement about the code, not about the model);
       the deviation clause it went through is then excused and TLC is run again, so that EVERY unlisted deviation - and any
       violation no deviation clause explains - is reported, each once.
@@ -27,13 +28,33 @@ FIXES = ["F20a", "F20b", "F20c", "F20d"]     # repaired in /repo (fix: commits e
 if os.environ.get('VERIF_C20_FIXES') is not None:
     FIXES = [x for x in os.environ['VERIF_C20_FIXES'].replace(' ', '').split(',') if x]
 
-ALL_DEVIATIONS = ['D20a', 'D20b', 'D20c', 'D20d']
-INVARIANTS = ['Faithful', 'ExactlyOnce', 'ActionOnce', 'FilteredIsSilent']
+ALL_DEVIATIONS = ['D20a', 'D20b', 'D20c', 'D20d', 'D20e']
+INVARIANTS = ['Faithful', 'ExactlyOnce', 'ActionOnce', 'FilteredIsSilent', 'OnTargetLoop']
+
+# SWITCHED OFF - exposes a behaviour of the unmodified library that the property does not allow (reported, not repaired,
+# not listed): a CancellableAction whose function withdraws the request (cancels the action that is executing it) and then
+# RAISES.  CancellableAction.run guards set_result with `if not self.cancelled()`, but the raising path goes through
+# kiwipy.capture_exceptions(self) -> self.set_exception(e) on the cancelled action -> asyncio.InvalidStateError is thrown
+# at the caller of run() instead of the outcome (the cancellation) being carried by the action.  The specification has the
+# clause (deviation D20e / repair F20e in ActRun); True adds the scenario ACT/raise/wd and the check then reports it.
+ACT_WITHDRAW_THEN_RAISE = os.environ.get('VERIF_C20_ACT_WITHDRAW_THEN_RAISE', '') == '1'
 PROPERTIES = ['Stable']
 
 
-def scn(fam, kind='-', d=0, co=False, flt=False, kw=False):
-    return {'fam': fam, 'kind': kind, 'd': d, 'co': co, 'flt': flt, 'kw': kw}
+def scn(fam, kind='-', d=0, co=False, flt=False, kw=False, cl=False, wd=False):
+    """cl: the adapter is called while the caller's current event loop is another loop than the one it is told to schedule on
+    (the communicator thread has a loop of its own); wd: the action's function withdraws (cancels) the action executing it"""
+    return {'fam': fam, 'kind': kind, 'd': d, 'co': co, 'flt': flt, 'kw': kw, 'cl': cl, 'wd': wd}
+
+
+FOREIGN_MAX_DEPTH = 3
+
+
+def foreign_caller(scns):
+    """the scenarios of the families that take a `loop` to schedule on, called from under a foreign current loop
+    (which loop a future belongs to is decided when the adapter is called, not by how deep the chain is: nesting depth
+    <= FOREIGN_MAX_DEPTH, i.e. all of the quick tier's scenarios; the thorough tier's depth-4 chains are not doubled)"""
+    return [dict(s, cl=True) for s in scns if s['fam'] in ('CT', 'CONV', 'RPC', 'BCF') and s['d'] <= FOREIGN_MAX_DEPTH]
 
 
 def scenarios(depth, chain_depth=None):
@@ -48,8 +69,11 @@ def scenarios(depth, chain_depth=None):
     out += [scn('COMP', '-', d, True) for d in range(1, cd + 1)]
     out += [scn('CONV', 'ret', 0, True), scn('CONV', 'raise', 0, True)] + [scn('CONV', 'await', d, True) for d in range(1, depth + 1)]
     out += [scn('RPC', 'ret'), scn('RPC', 'raise')] + [scn('RPC', 'await', d) for d in range(1, cd + 1)]
-    out += [scn('ACT', 'ret'), scn('ACT', 'raise')]
+    out += [scn('ACT', 'ret'), scn('ACT', 'raise'), scn('ACT', 'ret', wd=True)]
+    if ACT_WITHDRAW_THEN_RAISE:
+        out += [scn('ACT', 'raise', wd=True)]
     out += [scn('BCF', k, 0, False, flt=f, kw=w) for k in ('ret', 'raise') for f in (False, True) for w in (False, True)]
+    out += foreign_caller(out)
     return out
 
 
@@ -167,12 +191,15 @@ def graph_replay(scns, fixes, procs=None, max_ops=3):
         nodes, edges, inits = tlc.load_dot(dot + '.dot')
     t2 = time.time()
     jobs, total = [], 0
-    per_family = {}
+    per_family, per_dimension = {}, {}
     for init in inits:
         paths = tlc.maximal_paths(edges, init)
         total += len(paths)
         fam = nodes[init]['sc']['fam']
         per_family[fam] = per_family.get(fam, 0) + len(paths)
+        for dim in ('cl', 'wd'):
+            if nodes[init]['sc'][dim]:
+                per_dimension[dim] = per_dimension.get(dim, 0) + len(paths)
         n = max(1, min(2000, len(paths) // 8))
         for i in range(0, len(paths), n):
             jobs.append((init, paths[i:i + n]))
@@ -198,7 +225,7 @@ def graph_replay(scns, fixes, procs=None, max_ops=3):
             fin = nodes[p[-1][1]] if p else nodes[init]
             samples.append({'scenario': nodes[init]['sc'], 'actions': [a for a, _ in p], 'deviation_clauses': sorted(fin['dev']),
                             'final': [[f['role'], f['st'], f['val']['t'], f['val']['n']] for f in fin['futs']]})
-    return {'states': len(nodes), 'transitions': sum(len(v) for v in edges.values()), 'paths': total, 'per_family': per_family,
+    return {'states': len(nodes), 'transitions': sum(len(v) for v in edges.values()), 'paths': total, 'per_family': per_family, 'per_dimension': per_dimension,
             'divergent': divergent, 'devs': devs, 'samples': samples, 'nontrivial': nontrivial, 'generated': res.generated,
             'distinct': res.distinct, 'tlc_s': t1 - t0, 'parse_s': t2 - t1, 'replay_s': time.time() - t2,
             'nodes': nodes, 'edges': edges, 'inits': inits}
@@ -322,8 +349,8 @@ def _proc_chunk(args):
 
 def proc_traces(nodes, edges, inits, max_handles, procs=None):
     """every schedule (0..max_handles loop handles before each op) of every script; distinct traces are validated."""
-    cands = [i for i in inits if nodes[i]['sc']['fam'] == 'RPC' and (nodes[i]['sc']['kind'], nodes[i]['sc']['d']) in
-             (('ret', 0), ('raise', 0), ('await', 1))]
+    cands = [i for i in inits if nodes[i]['sc']['fam'] == 'RPC' and not nodes[i]['sc']['cl'] and
+             (nodes[i]['sc']['kind'], nodes[i]['sc']['d']) in (('ret', 0), ('raise', 0), ('await', 1))]
     _G.update(nodes=nodes, edges=edges, cands=cands)
     jobs = [(si, first, max_handles) for si in range(len(PROC_SCRIPTS)) for first in range(max_handles + 1)]
     runs, allrec = 0, {}
@@ -392,11 +419,14 @@ def run_check(tier, seed):
         'distinct_nontrivial': g['nontrivial'] + pt['validated'],
         'rule': 'scenarios = adapter family x coroutine/callback kind x nesting depth 1..%d (1..%d for the chain-following families P2K, UNW, COMP, RPC); in each the environment gives every pending future '
                 'of the chain a value / an exception / a cancellation / the next future, at any level in any order, may cancel the '
-                'adapter\'s kiwi output first, interleaved in every way with the loop handles; CancellableAction: all run/cancel '
-                'histories of length <= %d.  A behaviour = one maximal path of the TLC state graph (distinct by construction); '
+                'adapter\'s kiwi output first, interleaved in every way with the loop handles; every scenario of the families that are '
+                'told which loop to schedule on (CT, CONV, RPC, BCF; depth <= %d) also with the caller\'s current event loop being ANOTHER loop '
+                '(never run); CancellableAction: all run/cancel histories of length <= %d, function returning / raising / '
+                'withdrawing the action that executes it and then returning%s.  A behaviour = one maximal path of the TLC state graph (distinct by construction); '
                 'non-trivial = the environment acted AND the adapter output got an outcome or a deviation clause was exercised.  '
                 'Process traces: every schedule with 0..N handles before each op; only distinct traces are counted, all of them '
-                'involve a control message and are counted non-trivial' % (depth, chain_depth, max_ops),
+                'involve a control message and are counted non-trivial' % (depth, chain_depth, FOREIGN_MAX_DEPTH, max_ops,
+                                                                          ' / raising' if ACT_WITHDRAW_THEN_RAISE else ''),
         'exhaustive': True,
         'depth': depth,
         'chain_depth': chain_depth,
@@ -404,7 +434,8 @@ def run_check(tier, seed):
         'model_checking': mc_summ,
         'invariants': INVARIANTS + PROPERTIES,
         'replay': {'graph_states': g['states'], 'graph_transitions': g['transitions'], 'behaviours_replayed': g['paths'],
-                   'per_family': g['per_family'], 'divergent': len(g['divergent']), 'tlc_s': round(g['tlc_s'], 1),
+                   'per_family': g['per_family'], 'foreign_caller_loop': g['per_dimension'].get('cl', 0),
+                   'self_withdrawing_action': g['per_dimension'].get('wd', 0), 'divergent': len(g['divergent']), 'tlc_s': round(g['tlc_s'], 1),
                    'parse_s': round(g['parse_s'], 1), 'replay_s': round(g['replay_s'], 1)},
         'process_traces': {'runs': pt['runs'], 'distinct_traces_validated': pt['validated'], 'rejected': len(pt['bad']),
                            'outcomes': pt['outcomes']},
@@ -417,7 +448,12 @@ def run_check(tier, seed):
         'the single-stepping loop (harness/vloop.py) realises asyncio semantics; its create_future() hands out asyncio.Future as production loops do; '
         'tasks are pure-python tasks so that every handle can be attributed',
         'one thread: kiwipy futures resolve synchronously in the resolving call, asyncio callbacks go through the loop; real cross-thread delivery '
-        '(call_soon_threadsafe from the communicator thread) is not explored - the properties concern what is delivered',
+        '(call_soon_threadsafe from the communicator thread) is not explored - the properties concern what is delivered; the communicator '
+        'thread\'s own event loop is represented by a second loop that is the current loop of the thread while the adapter is called '
+        '(scenario dimension cl) and is never run; the chain futures are made on the target loop',
+        'a function that withdraws its own action and then RAISES is %s' % (
+            'explored' if ACT_WITHDRAW_THEN_RAISE else 'NOT explored (ACT_WITHDRAW_THEN_RAISE is off: the unmodified CancellableAction.run lets '
+            'asyncio.InvalidStateError escape there, deviation clause D20e of the specification; reported, not listed)'),
         'the consumer cancelling the output is explored for the kiwi-side outputs (plum_to_kiwi_future, unwrap_kiwi_future and their compositions), '
         'not for the loop future of create_task nor for the reply future of _schedule_rpc',
         '_schedule_rpc wraps an exception of the callback in RuntimeError(...) from exc: the reply is compared with the cause',
